@@ -341,7 +341,7 @@ impl NetSim {
         let correct = c.correct();
         let maxview = c.rigs.values().map(|r| r.snapshot().view.0).max().unwrap_or(0);
         let someview = rng.gen_range(maxview.saturating_sub(1)..=maxview + 1);
-        match rng.gen_range(0..6) {
+        match rng.gen_range(0..7) {
             // equivocating proposal: two different payloads for the same view, to two halves
             0 => {
                 let view = (maxview..maxview + n as u64 + 1).find(|v| c.leader(*v) == b).unwrap_or(maxview + 1);
@@ -382,6 +382,19 @@ impl NetSim {
                     let hv = if rng.gen_bool(0.6) { Some(avote(someview, rng.gen_range(0..5), rng.gen_range(1..4))) } else { None };
                     let hq = if rng.gen_bool(0.5) { c.seen_qcs.choose(rng).cloned() } else { None };
                     c.pool.push(Packet { to: *to, from: b, sig_ok: true, msg: json!({"timeout": ATVote { view: aview(someview), hv, hq }}) });
+                }
+            }
+            // timeout votes reporting an honest replica's block through a vote of an OLDER view (as after a partially
+            // delivered re-proposal): the sub-quorum must be counted per block, not per vote
+            6 => {
+                let hv = c.rigs.values().filter_map(|r| r.snapshot().high_vote).last();
+                if let Some(hv) = hv {
+                    let mut a = c.w.a_vote(&hv);
+                    a.view.v = a.view.v.saturating_sub(1);
+                    let hq = c.seen_qcs.iter().filter(|q| q.vote.n < a.n).last().cloned();
+                    for to in &correct {
+                        c.pool.push(Packet { to: *to, from: b, sig_ok: true, msg: json!({"timeout": ATVote { view: aview(someview), hv: Some(a.clone()), hq: hq.clone() }}) });
+                    }
                 }
             }
             // stale but valid new-view
